@@ -167,6 +167,14 @@ var c16Topics = []c16Topic{
 		n := r.i(1, 3)
 		out := []FullTriggerState{}
 		next := 0
+		if r.u()%8 == 0 { // a large array: thousands of channels share one setting (a message of tens of kilobytes)
+			idx := make([]int, 2000+r.i(0, 2000))
+			for k := range idx {
+				idx[k] = k
+			}
+			out = append(out, FullTriggerState{ChannelIndices: idx, TriggerState: c16TS(r)})
+			next = len(idx)
+		}
 		for k := 0; k < n; k++ {
 			var idx []int
 			for q := r.i(1, 4); q > 0; q-- {
@@ -198,8 +206,26 @@ var c16Topics = []c16Topic{
 		return g
 	}},
 	{tag: "TRIGCOUPLING", make: func(r *c16Rnd) any { return CouplingStatus(r.i(1, 3)) }},
-	{tag: "MIX", make: func(r *c16Rnd) any { return r.floats(6) }},
-	{tag: "CHANNELNAMES", make: func(r *c16Rnd) any { return r.strs(5) }},
+	{tag: "MIX", make: func(r *c16Rnd) any {
+		if r.u()%4 == 0 { // a large array
+			mix := make([]float64, 2000+r.i(0, 3000))
+			for k := range mix {
+				mix[k] = float64(r.i(0, 1000)) / 8
+			}
+			return mix
+		}
+		return r.floats(6)
+	}},
+	{tag: "CHANNELNAMES", make: func(r *c16Rnd) any {
+		if r.u()%4 == 0 { // a large array
+			names := make([]string, 1500+r.i(0, 2500))
+			for k := range names {
+				names[k] = fmt.Sprintf("chan%d", k+r.i(0, 3))
+			}
+			return names
+		}
+		return r.strs(5)
+	}},
 	{tag: "ALIVE", make: func(r *c16Rnd) any { return Heartbeat{Running: r.b(), Time: r.f(), HWactualMB: r.f(), DataMB: r.f()} }},
 	{tag: "TRIGGERRATE", make: func(r *c16Rnd) any {
 		return TriggerRateMessage{HiTime: vPipeT0.Add(time.Duration(r.i(0, 1000)) * time.Second), Duration: time.Second, CountsSeen: r.ints(4, 0, 1000)}
